@@ -144,6 +144,44 @@ func (c *Ctx) field(pkg, typ, name string) *types.Var {
 // name of a function.
 func (c *Ctx) nm(fn *ssa.Function) string { return c.P.Name(fn) }
 
+// on: the name an object had in the pinned tree (see ir.Program.ObjName).
+func (c *Ctx) on(o types.Object) string { return c.P.ObjName(o) }
+
+// typeStr prints a type with package names, module types in baseline spelling.
+func (c *Ctx) typeStr(t types.Type) string {
+	s := types.TypeString(t, func(p *types.Package) string { return p.Name() })
+	if c.P.Ren != nil {
+		for k, old := range c.P.Ren.TypeRev {
+			i := strings.LastIndex(k, ".")
+			j := strings.LastIndex(k[:i], "/")
+			cur := k[j+1:]
+			s = replaceWordStr(s, cur, cur[:strings.LastIndex(cur, ".")+1]+old)
+		}
+	}
+	return s
+}
+
+func replaceWordStr(s, old, new string) string {
+	out := ""
+	for {
+		i := strings.Index(s, old)
+		if i < 0 {
+			return out + s
+		}
+		end := i + len(old)
+		isId := func(b byte) bool {
+			return b == '_' || b >= '0' && b <= '9' || b >= 'a' && b <= 'z' || b >= 'A' && b <= 'Z'
+		}
+		if end < len(s) && isId(s[end]) || i > 0 && (isId(s[i-1]) || s[i-1] == '/') {
+			out += s[:end]
+			s = s[end:]
+			continue
+		}
+		out += s[:i] + new
+		s = s[end:]
+	}
+}
+
 // at renders instruction positions.
 func (c *Ctx) at(in ssa.Instruction) string { return c.P.At(in) }
 
